@@ -1466,3 +1466,153 @@ def group_history_ok(ops, explicit) -> bool:
                 if ids[a] == ids[b]:
                     return False
     return True
+
+
+# ---------------------------------------------------------------------------------------
+# C02 / C03: delivery and close ordering through two real gateways (A sends, B receives)
+# ---------------------------------------------------------------------------------------
+
+def feed(A, startcount=2, chunks=()):
+    """a second real gateway whose input is exactly what gateway A wrote so far"""
+    em = FakeExecModel()
+    out = PipeFile()
+    io = gb.Popen2IO(out, PipeFile(ChunkSource(A._out.getvalue(), chunks)), em)
+    B = LoopGateway(io, "peer", _startcount=startcount)
+    B._out = out
+    return B
+
+
+def channel_delivery_ok(items1, items2, merge, same_channel: bool, callback2: bool, chunks) -> bool:
+    """Two sender threads on gateway A (sender 1: items1, sender 2: items2) whose sends hit the wire in the
+    interleaving given by `merge` (True = sender 1 goes next) - every interleaving that keeps each sender's
+    own order.  Sender 2 uses a second channel unless same_channel.  The peer B must see per channel exactly
+    the items sent on it, in wire order, nothing lost, duplicated or leaked into the other channel."""
+    A = make_gateway(b"")
+    c1 = A.newchannel()
+    c2 = c1 if same_channel else A.newchannel()
+    i1 = i2 = 0
+    wire_order = {c1.id: [], c2.id: []}
+    for m in list(merge) + [True] * len(items1) + [False] * len(items2):
+        if m and i1 < len(items1):
+            c1.send(items1[i1])
+            wire_order[c1.id].append(items1[i1])
+            i1 += 1
+        elif (not m) and i2 < len(items2):
+            c2.send(items2[i2])
+            wire_order[c2.id].append(items2[i2])
+            i2 += 1
+    if i1 != len(items1) or i2 != len(items2):
+        return False
+    B = feed(A, chunks=chunks)
+    p1 = B._channelfactory.new(c1.id)
+    p2 = p1 if same_channel else B._channelfactory.new(c2.id)
+    seen2 = []
+    if callback2 and not same_channel:
+        p2.setcallback(seen2.append)
+    B._thread_receiver()
+    for p, cid in ((p1, c1.id), (p2, c2.id)):
+        if p is p2 and callback2 and not same_channel:
+            if seen2 != wire_order[cid]:
+                return False
+            continue
+        if p is p2 and same_channel:
+            continue
+        for want in wire_order[cid]:
+            try:
+                got = recv_nb(p)
+            except Exception:
+                return False
+            if got != want or type(got) is not type(want):
+                return False
+        try:
+            recv_nb(p)          # nothing more: only the end of the connection
+            return False
+        except EOFError:
+            pass
+    return True
+
+
+def close_ordering_ok(items, cause: str, sibling_items, extra_receives: int, chunks) -> bool:
+    """Side A sends `items` on a channel and then closes it by `cause` (close / exec_end / drop); a sibling
+    channel carries traffic before and after.  Checks the closing side and the peer."""
+    if cause == "exec_end":
+        A = make_gateway(b"", cls=gb.WorkerGateway, startcount=2)
+        A._executetask_complete = None
+        ch = A._channelfactory.new(1)
+        sib = A._channelfactory.new(3)
+        if sibling_items:
+            sib.send(sibling_items[0])
+        src = "".join(f"channel.send({x!r})\n" for x in items) + "pass\n"
+        try:
+            inside = []
+            A.executetask((ch, (src + "try:\n    channel.close()\nexcept OSError:\n    channel.send('refused')\n", None, None, {})))
+        except Exception:
+            return False
+        items = list(items) + ["refused"]     # an explicit close from inside is refused, the body carries on
+    else:
+        A = make_gateway(b"")
+        ch = A.newchannel()
+        sib = A.newchannel()
+        if sibling_items:
+            sib.send(sibling_items[0])
+        for x in items:
+            ch.send(x)
+        if cause == "close":
+            ch.close()
+        else:
+            drop_channel(A, ch)
+    for x in sibling_items[1:]:
+        sib.send(x)
+    nframes = len(sent_frames(A))
+    if cause != "drop":
+        # the closing side: closed for good, every operation behaves accordingly, nothing more is written
+        if not ch.isclosed():
+            return False
+        try:
+            ch.send(0)
+            return False
+        except OSError:
+            pass
+        ch.waitclose()          # returns at once
+        ch.close()              # harmless no-op
+        if len(sent_frames(A)) != nframes:
+            return False
+    frames = sent_frames(A)
+    mine = [f for f in frames if f[1] == ch.id]
+    if len(mine) != len(items) + 1 or mine[-1][0] != gb.Message.CHANNEL_CLOSE:
+        return False            # data frames first, exactly one close frame last
+    B = feed(A, startcount=1 if cause == "exec_end" else 2, chunks=chunks)
+    p = B._channelfactory.new(ch.id)
+    ps = B._channelfactory.new(sib.id)
+    B._thread_receiver()
+    for want in items:
+        try:
+            if recv_nb(p) != want:
+                return False
+        except Exception:
+            return False
+    for _ in range(1 + extra_receives):     # EOFError, again and again (for every receiver)
+        try:
+            recv_nb(p)
+            return False
+        except EOFError:
+            pass
+    try:
+        waitclose_nb(p)
+    except EOFError:
+        pass                                 # the scripted stream itself also ends: connection-level EOF is reported too
+    if not p.isclosed():
+        return False
+    try:
+        p.send(1)
+        return False
+    except OSError:
+        pass
+    p.close()
+    for want in sibling_items:
+        try:
+            if recv_nb(ps) != want:
+                return False
+        except Exception:
+            return False
+    return not ps.isclosed()
